@@ -24,7 +24,7 @@ import (
 
 type C06Scenario struct {
 	C05Scenario
-	Mangle map[int]string `json:"mangle,omitempty"` // op index -> response | notimp | qd2 | qd0 | an2 | badbody | short
+	Mangle map[int]string `json:"mangle,omitempty"` // op index -> response | response-op | notimp | qd2 | qd0 | an2 | badbody | short
 	// UpOpts: EDNS options every authoritative server adds to the OPT of its responses
 	// (keepalive | cookie | padding | unknown | ecs): what an upstream volunteers is not
 	// something the client negotiated.
@@ -98,7 +98,7 @@ func genC06(r *kit.RNG) *C06Scenario {
 			sc.Ops[i].Type = dns.TypeA
 		}
 		if r.Chance(0.12) {
-			sc.Mangle[i] = kit.Pick(r, []string{"response", "notimp", "qd2", "qd0", "an2", "badbody", "short"})
+			sc.Mangle[i] = kit.Pick(r, []string{"response", "notimp", "qd2", "qd0", "an2", "badbody", "short", "response-op"})
 		}
 	}
 	if r.Chance(0.35) {
@@ -119,6 +119,8 @@ func c06Packet(sc *C06Scenario, i int) []byte {
 		b[2] |= 0x80
 	case "notimp":
 		b[2] = b[2]&^0x78 | 5<<3
+	case "response-op": // a response of another opcode (an UPDATE or STATUS acknowledgement): still a response
+		b[2] = b[2]&^0x78 | byte([]int{5, 2}[i%2])<<3 | 0x80
 	case "qd2":
 		binary.BigEndian.PutUint16(b[4:6], 2)
 	case "qd0":
@@ -441,7 +443,7 @@ func runC06(sc *C06Scenario, tr *kit.Trace) *kit.Result {
 					res.Fail("C06/two-replies", "op %d via %s got %d replies", i, mode, len(replies[i]))
 					return
 				}
-				if (mode == "wire" || mode == "stream") && (sc.Mangle[i] == "response" || sc.Mangle[i] == "short") && len(replies[i]) > 0 {
+				if (mode == "wire" || mode == "stream") && (sc.Mangle[i] == "response" || sc.Mangle[i] == "response-op" || sc.Mangle[i] == "short") && len(replies[i]) > 0 {
 					res.Fail("C06/response-answered", "op %d (%s) must not be answered", i, sc.Mangle[i])
 					return
 				}
